@@ -134,27 +134,30 @@ def run(ctx):
         want = np.where(src[1], 0.0, src[0]) @ dm.astype(np.float32).astype(np.float64)
         if not same_view(aug, (want, src[1], src[2]), tol=1e-5):
             bad("augment2d does not apply one common linear map of the first two coordinates", {"seed": seed, "stds": stds})
-        # ---- focus
-        if observed:
-            p2 = build(case)
+        # ---- focus (also on the same pose at another scale: extents beyond 65 535 and below 1; the data stay dyadic, hence exact)
+        for fscale in ((1.0, rng.choice([8192.0, 65536.0, 1 / 64])) if observed else ()):
+            fcase = case if fscale == 1.0 else dict(case, body=dict(case["body"], data=pc.f32_to_bits(pc.bits_to_f32(case["body"]["data"], (-1,)) * np.float32(fscale))))
+            fsrc = src if fscale == 1.0 else arrays(build(fcase))
+            ctx.count("focus scale:%g" % fscale)
+            p2 = build(fcase)
             try:
                 p2.focus()
                 ok = True
             except Exception as e:
                 ok = False
-                bad("focus raises on a pose with observed points", {"error": type(e).__name__ + ": " + str(e)[:80]})
+                bad("focus raises on a pose with observed points", {"error": type(e).__name__ + ": " + str(e)[:80], "scale": fscale})
             if ok:
                 f = arrays(p2)
                 obs = np.where(f[1], np.nan, f[0])
                 mins = np.nanmin(obs.reshape(-1, D), axis=0); maxs = np.nanmax(obs.reshape(-1, D), axis=0)
                 hd = p2.header.dimensions
                 dims_got = [hd.width, hd.height, hd.depth][:D]
-                obs0 = np.where(src[1], np.nan, src[0]).reshape(-1, D)
+                obs0 = np.where(fsrc[1], np.nan, fsrc[0]).reshape(-1, D)
                 ext = np.nanmax(obs0, axis=0) - np.nanmin(obs0, axis=0)
-                if not (mins == 0).all() or dims_got != [math.ceil(x) for x in ext] or not np.array_equal(f[1], src[1]) or not np.array_equal(f[2], src[2]):
-                    bad("focus does not put the smallest observed coordinate of every axis at 0 with dimensions = extent rounded up", {"mins": mins.tolist(), "dims": dims_got, "extent": ext.tolist()})
-                if not same_view((f[0] - mins + np.nanmin(obs0, axis=0), f[1], f[2]), src):
-                    bad("focus is not a translation of the observed points", {})
+                if not (mins == 0).all() or dims_got != [math.ceil(x) for x in ext] or not np.array_equal(f[1], fsrc[1]) or not np.array_equal(f[2], fsrc[2]):
+                    bad("focus does not put the smallest observed coordinate of every axis at 0 with dimensions = extent rounded up", {"mins": mins.tolist(), "dims": dims_got, "extent": ext.tolist(), "scale": fscale})
+                if not same_view((f[0] - mins + np.nanmin(obs0, axis=0), f[1], f[2]), fsrc):
+                    bad("focus is not a translation of the observed points", {"scale": fscale})
         # ---- bbox
         try:
             bb = build(case).bbox()
